@@ -90,15 +90,19 @@ def _ms(x):
     return int(round((x - dt.datetime(1970, 1, 1)).total_seconds() * 1000))
 
 
-def predicted(updates, k, delay_ms, t0=None):
+def predicted(updates, k, delay_ms, t0=None, exact=False):
     """first j > k with pt_j - t0 > delay (t0 = request time, by default the time of update k); returns
-    (j, ambiguous_j) where ambiguous_j is an update falling exactly on the boundary (either is accepted)"""
+    (j, ambiguous_j) where ambiguous_j is an update falling exactly on the boundary: with a bet delay the
+    configured delay is a float sum (0.17 + 3 != 3.17), so either side of the boundary is accepted there; without
+    one (`exact`) the delay is the configured latency itself and an update exactly that much later is NOT 'more
+    than the latency' after the request"""
     tk = updates[k].pt if t0 is None else t0
     amb = None
     for j in range(k + 1, len(updates)):
         d = updates[j].pt - tk
         if d == delay_ms:
-            amb = j
+            if not exact:
+                amb = j
             continue
         if d > delay_ms:
             return j, amb
@@ -162,7 +166,9 @@ def check(sc, metamorphic=True):
         delay_ms = Fraction(str(lat[kind])) * 1000
         if kind in ("place", "replace"):
             delay_ms += us[k].bet_delay * 1000
-        j, amb = predicted(us, k, delay_ms, tk)
+        j, amb = predicted(us, k, delay_ms, tk, exact=not (kind in ("place", "replace") and us[k].bet_delay))
+        if any(u_.pt - tk == delay_ms for u_ in us[k + 1:]):
+            classes.add("update-exactly-on-the-boundary" + ("" if amb is None else ":either-side-accepted"))
         order = res.order if kind == "place" else res.target
         oid = id(order)
         if j is not None and j != k + 1:
